@@ -9078,23 +9078,36 @@ class SVG(Group):
 
         # Semiparse the nodes. All nodes are given in iterparse ordering with start-ns, start, and end.
         # Use values are inlined.
-        def semiparse(nodes, active=()):
-            for elem, children in nodes:
-                if children is None:
-                    yield None, "start-ns", elem
-                    continue
-                tag = elem.tag
-                if tag.startswith("{http://www.w3.org/2000/svg"):
-                    tag = tag[28:]  # Removing namespace. http://www.w3.org/2000/svg:
-                yield tag, "start", elem
-                if SVG_ATTR_ID in elem.attrib:
-                    # What a use inside this element must not instantiate again, its own ancestor.
-                    yield from semiparse(
-                        children, active + (elem.attrib[SVG_ATTR_ID],)
+        def semiparse(nodes):
+            # Not recursive: a document may nest deeper than the interpreter allows calls to.
+            # A frame holds the nodes still to give and the ids being instantiated there, then the element these
+            # nodes belong to: its tag, itself, the ids being instantiated around it, whether its reference is done.
+            frames = [[iter(nodes), (), None, None, None, True]]
+            while frames:
+                frame = frames[-1]
+                node = next(frame[0], None)
+                if node is not None:
+                    elem, children = node
+                    if children is None:
+                        yield None, "start-ns", elem
+                        continue
+                    tag = elem.tag
+                    if tag.startswith("{http://www.w3.org/2000/svg"):
+                        tag = tag[28:]  # Removing namespace. http://www.w3.org/2000/svg:
+                    yield tag, "start", elem
+                    active = frame[1]
+                    inner = active
+                    if SVG_ATTR_ID in elem.attrib:
+                        # What a use inside this element must not instantiate again, its own ancestor.
+                        inner = active + (elem.attrib[SVG_ATTR_ID],)
+                    frames.append(
+                        [iter(children), inner, tag, elem, active, SVG_TAG_USE != tag]
                     )
-                else:
-                    yield from semiparse(children, active)
-                if SVG_TAG_USE == tag:
+                    continue
+                # The nodes of this frame are given.
+                tag, elem, active = frame[2], frame[3], frame[4]
+                if not frame[5]:
+                    frame[5] = True
                     url = None
                     semiattr = elem.attrib
                     if XLINK_HREF in semiattr:
@@ -9103,13 +9116,14 @@ class SVG(Group):
                         url = semiattr[SVG_HREF]
                     if url is not None and url[1:] not in active:
                         # A reference to what is already being instantiated would never end.
-                        try:
-                            yield from semiparse(
-                                [event_defs[url[1:]]], active + (url[1:],)
-                            )
-                        except KeyError:
-                            pass  # Failed to find link.
-                yield tag, "end", elem
+                        target = event_defs.get(url[1:])  # None: failed to find link.
+                        if target is not None:
+                            frame[0] = iter([target])
+                            frame[1] = active + (url[1:],)
+                            continue
+                frames.pop()
+                if elem is not None:
+                    yield tag, "end", elem
 
         yield from semiparse(nodes)
 
